@@ -115,3 +115,171 @@ func observePayHist(o *Toks, mk func() payloader, calls []PayCall) {
 		observePay(o, p, twin, c.MTU, c.Input)
 	}
 }
+
+// ---- generic depacketizer observation and input-mutation helpers (contributed by the vpx group)
+
+// depacketizer is the part of rtp.Depacketizer the C09 observation needs.
+type depacketizer interface {
+	Unmarshal(packet []byte) ([]byte, error)
+	IsPartitionHead(payload []byte) bool
+	IsPartitionTail(marker bool, payload []byte) bool
+}
+
+// depResult is the canonical outcome of one Unmarshal call.
+type depResult struct {
+	panicked bool
+	err      bool
+	out      []byte
+}
+
+func (a depResult) equal(b depResult) bool {
+	return a.panicked == b.panicked && a.err == b.err && bytes.Equal(a.out, b.out)
+}
+
+func (a depResult) write(t *Toks) {
+	switch {
+	case a.panicked:
+		t.Panic()
+	case a.err:
+		t.Err("other")
+	default:
+		t.Ok().Bytes(a.out)
+	}
+}
+
+// callUnmarshal runs d.Unmarshal(buf) under recover and snapshots the returned bytes at once
+// (the result may alias buf, which the caller overwrites afterwards).
+func callUnmarshal(d depacketizer, buf []byte) depResult {
+	var r depResult
+	var out []byte
+	var err error
+	if try(func() { out, err = d.Unmarshal(buf) }) {
+		r.panicked = true
+		return r
+	}
+	if err != nil {
+		r.err = true
+		return r
+	}
+	r.out = cloneBytes(out)
+	return r
+}
+
+// observeDepHist feeds the payloads to ONE receiver and writes `<n> depobs*` (see
+// lean/Rtp/Pred/C09.lean DepObs and Driver/Kinds/Vpx.lean rdDepObs):
+//
+//	res md head tail0 tail1 auxPanic freshSame twinSame
+//
+// md writes the receiver's exported metadata.  freshSame: a fresh receiver given the same payload
+// returns the same result and, when the call succeeded, has the same metadata.  twinSame: a twin
+// receiver that is always handed pristine, never overwritten copies returns the same result; the
+// main receiver's input buffer is overwritten after every call.
+func observeDepHist(o *Toks, mk func() depacketizer, md func(t *Toks, d depacketizer), payloads [][]byte) {
+	mdStr := func(d depacketizer) string {
+		var t Toks
+		md(&t, d)
+		return t.String()
+	}
+	mainR, twin := mk(), mk()
+	o.Nat(len(payloads))
+	for _, in := range payloads {
+		buf := cloneBytes(in)
+		r := callUnmarshal(mainR, buf)
+		mdMain := mk()
+		if !r.panicked {
+			mdMain = mainR
+		}
+		mdS := mdStr(mdMain)
+		var head, t0, t1 bool
+		aux := try(func() {
+			head = mainR.IsPartitionHead(buf)
+			t0 = mainR.IsPartitionTail(false, buf)
+			t1 = mainR.IsPartitionTail(true, buf)
+		})
+		fresh := mk()
+		rf := callUnmarshal(fresh, cloneBytes(in))
+		freshSame := r.equal(rf) && (r.panicked || r.err || mdS == mdStr(fresh))
+		rt := callUnmarshal(twin, cloneBytes(in))
+		twinSame := r.equal(rt)
+		for i := range buf {
+			buf[i] ^= 0xA5
+		}
+		r.write(o)
+		o.Tok(mdS)
+		o.Bool(head).Bool(t0).Bool(t1).Bool(aux).Bool(freshSame).Bool(twinSame)
+	}
+}
+
+// writeOBytesList writes `<n> obytes*`.
+func writeOBytesList(t *Toks, bs [][]byte) {
+	t.Nat(len(bs))
+	for _, b := range bs {
+		t.OBytes(b)
+	}
+}
+
+// mutate returns a damaged copy of b: bit flip, truncation, extension, byte replacement.
+func mutate(r *Rand, b []byte, alphabet []byte) []byte {
+	c := append([]byte{}, b...)
+	switch r.Intn(6) {
+	case 0:
+		if len(c) > 0 {
+			c[r.Intn(min(len(c), 12))] ^= 1 << uint(r.Intn(8))
+		}
+	case 1:
+		c = c[:r.Intn(len(c)+1)]
+	case 2:
+		c = append(c, r.Bytes(r.Intn(4))...)
+	case 3:
+		if len(c) > 0 {
+			c[r.Intn(min(len(c), 12))] = alphabet[r.Intn(len(alphabet))]
+		}
+	case 4:
+		if len(c) > 0 {
+			c = c[:r.Intn(min(len(c), 12)+1)]
+		}
+	default:
+		if len(c) > 1 {
+			i := r.Intn(min(len(c), 12))
+			c = append(c[:i], c[i+1:]...)
+		}
+	}
+	return c
+}
+
+// alphaBytes returns n bytes drawn from the alphabet (with an occasional uniformly random byte).
+func alphaBytes(r *Rand, n int, alphabet []byte) []byte {
+	b := make([]byte, n)
+	for i := range b {
+		if r.Chance(1, 8) {
+			b[i] = r.Byte()
+		} else {
+			b[i] = alphabet[r.Intn(len(alphabet))]
+		}
+	}
+	return b
+}
+
+// shortStrings calls f with consecutive blocks of all byte strings of length ≤ maxLen (in
+// length-then-lexicographic order), `block` strings at a time; nil and the empty string come first.
+func shortStrings(maxLen, block int, f func(ss [][]byte)) {
+	cur := [][]byte{nil, {}}
+	flush := func(force bool) {
+		if len(cur) >= block || (force && len(cur) > 0) {
+			f(cur)
+			cur = nil
+		}
+	}
+	for l := 1; l <= maxLen; l++ {
+		total := 1 << (8 * uint(l))
+		for v := 0; v < total; v++ {
+			s := make([]byte, l)
+			for i := 0; i < l; i++ {
+				s[i] = byte(v >> (8 * uint(l-1-i)))
+			}
+			cur = append(cur, s)
+			flush(false)
+		}
+	}
+	flush(true)
+}
